@@ -71,6 +71,7 @@ type BurstSampler struct {
 
 	counter uint32
 	resetAt int64
+	started uint32
 }
 
 // Sample implements the Sampler interface.
@@ -90,11 +91,15 @@ func (s *BurstSampler) inc() uint32 {
 	now := TimestampFunc().UnixNano()
 	resetAt := atomic.LoadInt64(&s.resetAt)
 	var c uint32
-	if now >= resetAt {
+	// The zero value of resetAt is not a window ending at the Unix epoch: the
+	// first event always opens the first window, also on a clock that reads
+	// before the epoch.
+	if now >= resetAt || atomic.LoadUint32(&s.started) == 0 {
 		c = 1
 		atomic.StoreUint32(&s.counter, c)
 		newResetAt := now + s.Period.Nanoseconds()
 		reset := atomic.CompareAndSwapInt64(&s.resetAt, resetAt, newResetAt)
+		atomic.StoreUint32(&s.started, 1)
 		if !reset {
 			// Lost the race with another goroutine trying to reset.
 			c = atomic.AddUint32(&s.counter, 1)
